@@ -170,7 +170,7 @@ Print Assumptions C15_horner_rounding_bound_binary64.
    rnd p0 and rnd v0, i.e. exactly p0 and v0 when these are numbers of the format (C15_traj3_start_exact).
    Quintic (C15_traj5_end_rounding_bound): 1056 eps S5, 3960 eps S5/|ts|, 11880 eps S5/|ts|^2 for position, velocity,
    acceleration, under the additional hypothesis rnd 2 = 2 (the divisor of the constant 1/2; true for binary64).
-   The septic generator: see the last section of this file (C15_traj7_*).  NOT proved: the step from the rounded-real term to
+   The septic generator: see the last section of this file (theorems C15_traj7_...).  NOT proved: the step from the rounded-real term to
    the C's binary64 run (as before).
    Non-vacuity: TrajRound.traj3_end_id (identity rounding: end values exact), traj3_end_scale20 (the inexact model
    rnd v = v (1 + 2^-20) satisfies all hypotheses), traj3_end_binary64_ex (binary64, ts = 2, 0 -> 10: within 2^-40). *)
